@@ -8,7 +8,7 @@ THEOREMS = ["C01_parse_complete", "C01_nonvacuous"]
 
 def run(run, args):
     formlib.prepare(run)
-    recs = gather(run, [("gram", 2500 if run.tier == "quick" else 40000, 20000000)])
+    recs = gather(run, [("gram", (2500 if run.tier == "quick" else 40000) * run.scale, 20000000)])
     res, errors = formlib.evaluate("C01", recs, shard=400)
     run.cov["rule"] = ("formulas generated from the documented grammar (depth <= 3, 1 in 10 up to 5; 1-6 items per level; symbols from the 119 "
                        "upper-case table symbols with a bias to a dozen common ones so keys repeat; tabulated isotopes incl. leading zeros; counts incl. "
